@@ -81,17 +81,16 @@ mutual
              | .error e => .error (fieldErr path k e))
           | d => .ok (c.setDefault k (.val d), n)
       | .challenge alg =>
-          -- ChallengeField.__setdefault__: a plaintext default is hashed, a digest is kept; without a default the base class runs
-          match m.default.value with
-          | .none =>
-            (match envValue W m with
-             | some s => (match validate W.fe.toEnv f (.str s) with
-                 | .ok v => .ok (c.setDefault k (.val v), n)
-                 | .error e => .error (fieldErr path k e))
-             | none => .ok (c.setDefault k (.val .none), n))
-          | .str p => let salt := W.fe.salt alg; .ok (c.setDefault k (.val (.digest salt (W.fe.hash alg (salt ++ W.fe.utf8 p)) alg)), n)
-          | .digest s d a => .ok (c.setDefault k (.val (.digest s d a)), n)
-          | _ => .error (.raw "TypeError")
+          -- ChallengeField.__setdefault__: a set environment variable (or no default) goes through the base class;
+          -- otherwise a plaintext default is hashed and a digest is kept
+          match envValue W m, m.default.value with
+          | some s, _ => (match validate W.fe.toEnv f (.str s) with
+               | .ok v => .ok (c.setDefault k (.val v), n)
+               | .error e => .error (fieldErr path k e))
+          | none, .none => .ok (c.setDefault k (.val .none), n)
+          | none, .str p => let salt := W.fe.salt alg; .ok (c.setDefault k (.val (.digest salt (W.fe.hash alg (salt ++ W.fe.utf8 p)) alg)), n)
+          | none, .digest s d a => .ok (c.setDefault k (.val (.digest s d a)), n)
+          | none, _ => .error (.raw "TypeError")
       | _ =>
           -- Field.__setdefault__: a non-empty environment variable is validated and wins over the default
           match envValue W m with
